@@ -277,41 +277,46 @@ impl World {
         // prefer live nodes as targets of structural ops
         let live: Vec<usize> =
             (0..n).filter(|i| self.nodes[*i].cell.get_status() == ractor::ActorStatus::Running).collect();
-        let pick_live = |rng: &mut Rng| if live.is_empty() || rng.chance(1, 8) { any(rng) } else { *rng.pick(&live) };
+        let pick_live = |rng: &mut Rng| if live.is_empty() || rng.chance(1, 12) { any(rng) } else { *rng.pick(&live) };
         let busy: Vec<usize> = (0..n).filter(|i| self.nodes[*i].sh.in_handler.load(Ordering::SeqCst)).collect();
         // live nodes that have at least one live child: exits there are the interesting ones
         let parents: Vec<usize> = live.iter().copied().filter(|i| !self.nodes[*i].cell.get_children().is_empty()).collect();
         let pick_parent = |rng: &mut Rng| if parents.is_empty() || rng.chance(1, 3) { pick_live(rng) } else { *rng.pick(&parents) };
         for _ in 0..50 {
             let r = rng.below(100);
-            let op = if r < 26 && n < 14 {
+            let op = if live.is_empty() && n < 14 && r < 70 {
+                Op::Spawn
+            } else if r < 36 && n < 14 {
                 // grow: deep chains up to depth 5
-                let p = pick_live(rng);
+                let p = if rng.chance(1, 8) { any(rng) } else { pick_live(rng) };
                 if self.depth(p) >= 5 {
                     Op::Spawn
                 } else {
                     Op::SpawnL(p)
                 }
-            } else if r < 29 && n < 14 {
+            } else if r < 39 && n < 14 {
                 Op::Spawn
-            } else if r < 39 {
-                Op::Link(pick_live(rng), pick_live(rng))
-            } else if r < 43 {
+            } else if r < 50 {
+                // a quarter of the links involve a draining / stopped side (must be refused)
+                let c = if rng.chance(1, 6) { any(rng) } else { pick_live(rng) };
+                let p = if rng.chance(1, 5) { any(rng) } else { pick_live(rng) };
+                Op::Link(c, p)
+            } else if r < 54 {
                 Op::Unlink(any(rng), any(rng))
-            } else if r < 57 {
+            } else if r < 69 {
                 Op::Block(pick_live(rng))
-            } else if r < 65 {
+            } else if r < 77 {
                 if busy.is_empty() { Op::Release(any(rng)) } else { Op::Release(*rng.pick(&busy)) }
-            } else if r < 74 {
-                // drain: prefer busy nodes (Draining with a backlog)
-                if !busy.is_empty() && rng.chance(2, 3) { Op::Drain(*rng.pick(&busy)) } else { Op::Drain(pick_live(rng)) }
-            } else if r < 80 {
+            } else if r < 85 {
+                // drain: mostly busy nodes (Draining with a backlog); an idle node drains and exits at once
+                if !busy.is_empty() && rng.chance(5, 6) { Op::Drain(*rng.pick(&busy)) } else if rng.chance(1, 3) { Op::Drain(pick_live(rng)) } else { Op::Block(pick_live(rng)) }
+            } else if r < 89 {
                 Op::Stop(pick_parent(rng))
-            } else if r < 88 {
+            } else if r < 94 {
                 Op::Kill(pick_parent(rng))
-            } else if r < 92 {
-                Op::Fail(pick_parent(rng))
             } else if r < 96 {
+                Op::Fail(pick_parent(rng))
+            } else if r < 98 {
                 Op::Panic(pick_parent(rng))
             } else {
                 Op::Abort(pick_parent(rng))
